@@ -46,9 +46,42 @@ def concretize(v, model):
     return ('?', repr(v))
 
 
-def _check(pc, goal, timeout_ms):
+def _int_leaves(v, out):
+    if isinstance(v, VInt):
+        out.append(v.t)
+    elif isinstance(v, VOpt):
+        _int_leaves(v.val, out)
+    elif isinstance(v, VSlice):
+        for p in (v.start, v.stop, v.step):
+            _int_leaves(p, out)
+    elif isinstance(v, VTuple):
+        for i in v.items:
+            _int_leaves(i, out)
+    elif isinstance(v, VList):
+        out.append(v.length)
+        from .sorts import list_get
+        for k in range(4):
+            try:
+                _int_leaves(list_get(v, z3.IntVal(k)), out)
+            except Exception:
+                break
+    elif isinstance(v, VRec):
+        for x in v.fields.values():
+            _int_leaves(x, out)
+
+
+def _small_bounds(params, B=6):
+    leaves = []
+    for v in params.values():
+        _int_leaves(v, leaves)
+    return [z3.And(t >= -B, t <= B) for t in leaves if z3.is_int(t)]
+
+
+def _check(pc, goal, timeout_ms, mbqi=True):
     s = z3.Solver()
     s.set('timeout', timeout_ms)
+    if not mbqi:
+        s.set('smt.mbqi', False)      # pure E-matching: fast on the array-property style hypotheses used here
     s.add(*pc)
     s.add(z3.Not(goal))
     t0 = time.time()
@@ -76,11 +109,25 @@ def discharge(ob: Obligation, timeout_ms=10000, use_cvc5=True):
     g = ob.goal
     if z3.is_true(z3.simplify(g)) if z3.is_bool(g) else False:
         return dict(verdict='proved', backend='syntactic', ms=0.0)
+    r, s, ms = _check(ob.pc, g, max(1000, timeout_ms // 3), mbqi=False)
+    if r == z3.unsat:
+        return dict(verdict='proved', backend='z3(e-matching)', ms=ms)
+    ms0 = ms
     r, s, ms = _check(ob.pc, g, timeout_ms)
+    ms += ms0
     if r == z3.unsat:
         return dict(verdict='proved', backend='z3', ms=ms)
     if r == z3.sat:
         m = s.model()
+        if ob.params:      # prefer a small counter-model (replayable): bound every integer leaf of the inputs
+            small = _small_bounds(ob.params)
+            if small:
+                s.push()
+                s.add(*small)
+                s.set('timeout', 3000)
+                if s.check() == z3.sat:
+                    m = s.model()
+                s.pop()
         cex = None
         if ob.params:
             try:
@@ -120,9 +167,25 @@ def verify_target(repo_root: str, relpath: str, qualname: str, contract: dict, r
             rep['status'] = 'spec-drift'
             rep['detail'] = f'loop count changed: contract expects {contract.get("n_loops")}, source has {n_loops}'
             return rep
-        menv = NpModuleEnv(repo, relpath, registry, consts)
-        eng = Engine(node, contract, registry, menv, qualname, cls_name=cls)
-        obs = eng.run()
+        variants = contract.get('variants') or [None]
+        obs = []
+        eng = None
+        all_unsupported, modelled, paths = [], set(), 0
+        for vi, var in enumerate(variants):
+            c2 = contract
+            if var is not None:
+                c2 = dict(contract)
+                c2['params'] = dict(contract.get('params', {}), **var)
+            menv = NpModuleEnv(repo, relpath, registry, consts)
+            eng = Engine(node, c2, registry, menv, qualname, cls_name=cls)
+            for ob in eng.run():
+                if var is not None:
+                    ob.name = f'{ob.name}|v{vi}'
+                obs.append(ob)
+            all_unsupported += [(l, (f'[variant {vi}] ' if var is not None else '') + w) for l, w in eng.unsupported]
+            modelled |= eng.stmts_modelled
+            paths += eng.paths_done
+        eng.unsupported, eng.stmts_modelled, eng.paths_done = all_unsupported, modelled, paths
         body_stmts = [n for n in ast.walk(node) if isinstance(n, ast.stmt) and n is not node
                       and not (isinstance(n, ast.Expr) and isinstance(n.value, ast.Constant))]
         rep['stmts_total'] = len({n.lineno for n in body_stmts})
